@@ -77,7 +77,7 @@ def C37(ctx):
                  {"level": "unit", "case": c, "mismatch": o})
     core.log("GenConstraint + unit replay: %d cases, %.1fs" % (len(cases), time.time() - t0)); t0 = time.time()
     # G (2): ledger level, stratified sample of valid pairs + multi-resource cases
-    per = 6 if q else 60
+    per = 3 if q else 60
     strata = {}
     for c in pairs:
         if c["valid"]:
@@ -85,6 +85,31 @@ def C37(ctx):
     sample = []
     for k in sorted(strata, key=str):
         sample += ctx.rng.sample(strata[k], min(per, len(strata[k])))
+    # exact ties and their neighbours are never subsampled: balance amount equal to / next to a bound of the constraint,
+    # id set equal to / one id away from the required, allowed or exact id set, empty and full balances
+    amts = sorted({c["b"]["a"] for c in pairs if c["b"]["kind"] == "f"})
+    near = lambda x, y: y in amts and x in amts and abs(amts.index(x) - amts.index(y)) <= 1
+    def boundary(c):
+        k, b = c["c"], c["b"]
+        if not c["valid"]:
+            return False
+        bounds = [k["a"]] if k["t"] in ("exact", "atleast") else ([x["a"] for x in (k["lo"], k["hi"]) if x["k"] == "incl"] if k["t"] == "general" else [])
+        if b["kind"] == "f":
+            simple = k["t"] != "general" or (k["allow"]["k"] == "any" and not k["req"])
+            return simple and (k["t"] == "nonzero" or k.get("lo", {}).get("k") == "nonzero" or any(near(b["a"], x) for x in bounds) or not bounds)
+        n = len(b["ids"])
+        sets = [k[f] for f in ("ids", "req") if f in k] + ([k["allow"]["ids"]] if k.get("allow", {}).get("k") == "list" else [])
+        close = any(len(set(b["ids"]) ^ set(x)) <= 1 for x in sets)
+        tie = any(abs(4 * n - x) <= 4 for x in bounds)
+        if k["t"] == "general":     # the general form has the largest product: keep exact coincidences only
+            return (any(set(b["ids"]) == set(x) for x in sets) and any(4 * n == x for x in bounds)
+                    and len(k["req"]) <= 1 and (k["allow"]["k"] == "any" or len(k["allow"]["ids"]) >= 2))
+        return close or tie or k["t"] == "nonzero"
+    ties = [c for c in pairs if boundary(c)]
+    chosen = {json.dumps(c, sort_keys=True) for c in sample}
+    if len(ties) > (700 if q else 6000):
+        raise ToolError("boundary product for the ledger level is unexpectedly large: %d" % len(ties))
+    sample += [c for c in ties if json.dumps(c, sort_keys=True) not in chosen]
     sample += ctx.rng.sample(multi, min(len(multi), 120 if q else 2000))
     if os.environ.get("VERIF_CORRUPT"):     # demonstration of binding
         bad = next(c for c in sample if c["m"] == "pair" and c["sat"])
@@ -176,6 +201,21 @@ def C36(ctx):
     vh(BIN, ["lifecycle", "record", "seed=%d" % ctx.seed, "n=%d" % (1500 if q else 50000)], stdout_path=tp)
     evs = read_ndjson(tp)
     os.unlink(tp)
+    # non-vacuity (also in the quick tier): every boundary scenario, every instruction kind and every static error class occurs
+    scen = {e["scenario"] for e in evs if "scenario" in e}
+    errs = {e["static"]["all"][4:] for e in evs if e["static"]["all"].startswith("err:")}
+    need_errs = {"BucketNotYetCreated", "BucketAlreadyUsed", "BucketConsumedWhilstLockedByProof", "ProofNotYetCreated", "ProofAlreadyUsed",
+                 "AddressReservationNotYetCreated", "AddressReservationAlreadyUsed", "NamedAddressNotYetCreated", "ChildIntentNotRegistered",
+                 "DanglingBucket", "DanglingAddressReservation", "BlobNotRegistered", "InstructionNotSupportedInTransactionIntent",
+                 "SubintentDoesNotEndWithYieldToParent", "ProofCannotBePassedToAnotherIntent",
+                 "InstructionFollowingNextCallAssertionWasNotInvocation", "ManifestEndedWhilstExpectingNextCallAssertion"}
+    ops_t = {i["op"] for e in evs for i in e["m"]["ins"]}
+    if len(scen) < 45 or not need_errs <= errs or len(ops_t) < 18:
+        raise ToolError("lifecycle traffic not exhaustive over its classes: %d scenarios, missing error classes %s, %d instruction kinds" % (
+            len(scen), sorted(need_errs - errs), len(ops_t)))
+    accepted_scen = {e["scenario"] for e in evs if "scenario" in e and e["static"]["all"] == "ok" and e["run"]["cls"] == "commit"}
+    if not {"take-deposit", "unlock-by-drop", "unlock-by-drop-named", "clone-both-dropped", "alloc-used", "yield-parent-bucket", "assert-next-then-call"} <= accepted_scen:
+        raise ToolError("expected well-formed scenarios did not commit: have %s" % sorted(accepted_scen))
     by = lambda pred: copy.deepcopy(next(e for e in evs if pred(e)))
     muts = []
     e = by(lambda e: e["static"]["all"].startswith("err:BucketNotYet")); e["static"]["all"] = "ok"; muts.append((e, "accept-implies-ok-all"))
@@ -232,7 +272,7 @@ def C38(ctx):
     ctx.add_tlc(r)
     core.log("Movements model: %d states, %.1fs" % (r.distinct, time.time() - t0)); t0 = time.time()
     tp = ctx.wpath("mv-trace.ndjson")
-    vh(BIN, ["movements", "record", "seed=%d" % ctx.seed, "n=%d" % (700 if q else 30000)], stdout_path=tp, timeout=7200)
+    vh(BIN, ["movements", "record", "seed=%d" % ctx.seed, "n=%d" % (550 if q else 30000)], stdout_path=tp, timeout=7200)
     allev = read_ndjson(tp)
     os.unlink(tp)
     stats = next(e for e in allev if e["k"] == "stats")["stats"]
@@ -250,6 +290,20 @@ def C38(ctx):
         e["act"]["B"]["dep"]["F"]["a"] += 400
         e["act"]["B"]["net"]["F"] += 400
         core.log("VERIF_CORRUPT: account B now received 100 more F than recorded in one run")
+    # the deterministic scenario product must have run (all of it, also in the quick tier)
+    ok_scen = {(e["scenario"], e["state"]) for e in evs if e.get("scenario")}
+    for how in ("deposit", "try_refund", "try_abort", "batch", "batch_refund", "worktop"):
+        for rname in ("F", "N", "X"):
+            for st in (0, 1):
+                if how == "try_abort" and st == 1:
+                    continue        # B refuses: the transaction fails, nothing to compare
+                if ("sink:%s:%s" % (how, rname), st) not in ok_scen:
+                    raise ToolError("scenario sink:%s:%s did not run successfully on ledger state %d" % (how, rname, st))
+    need_scen = {"take-equal:F", "take-less:F", "take-half:X", "take-equal:refund:X", "ids-all", "ids-some", "ids-none", "empty:take-all-deposit",
+                 "empty:worktop-deposit", "empty:withdraw-no-ids", "assert-equal:contains", "assert-less:include", "assert-equal:bucket",
+                 "assert-only", "return-retake", "batch-two", "unknown-source:deposit", "unknown-source:try_refund"}
+    if not need_scen <= {n for n, _ in ok_scen}:
+        raise ToolError("boundary scenarios without a successful run: %s" % sorted(need_scen - {n for n, _ in ok_scen}))
     # non-vacuity: the recorded predictions exercise the interesting shapes
     shapes = set()
     for e in evs:
